@@ -94,6 +94,26 @@ structure Info where
   msgsDropped : Int := 0
 deriving Repr
 
+structure Connect where
+  ver : Nat := 4
+  clean : Bool := true
+  id : Str := []
+  sei : Option Nat := none
+  rm : Option Nat := none
+  tam : Option Nat := none
+  will : Option Will := none
+deriving Repr
+
+/-- a connection whose handler is parked inside `attachClient` (see `connectHold`) -/
+structure Pending where
+  conn : Nat
+  obj : Nat
+  k : Connect
+  stage : Nat
+  refuse : Option Nat := none
+  present : Bool := false
+deriving Repr
+
 structure Server where
   caps : Caps := {}
   objs : List Client := []
@@ -113,6 +133,8 @@ structure Server where
   orderSeed : Nat := 0                      -- order in which the share groups are visited
   nextSeed : Nat := 0                       -- which deferred message `processPacket` releases next
   parked : List Nat := []                   -- objects whose handler is parked at `attach.beforeCleanup`
+  parkedEarly : List Nat := []              -- objects whose handler is parked at `attach.afterRead` (before sendLWT)
+  pending : List Pending := []              -- connections whose handler is parked inside attachClient
   resendSeed : Nat := 0                     -- order in which a resumed session's messages are resent
 deriving Repr
 
@@ -265,7 +287,7 @@ def disconnectClient (s : Server) (i : Nat) (code : Nat) : Server × List Out :=
   let c := getObj s i
   -- an MQTT 3 client is written a DISCONNECT packet too (E0 00), which MQTT 3 does not define for
   -- servers (known finding F23b)
-  let w := if c.isOpen && !c.inline then [Out.wrote c.conn (.disconnect c.ver code)] else []
+  let w := if c.isOpen && !c.inline && !c.peerGone then [Out.wrote c.conn (.disconnect c.ver code)] else []
   let (s, o) := stopClient s i
   (s, w ++ o)
 
@@ -757,16 +779,6 @@ def recvOn (s : Server) (conn : Nat) (pk : InPk) (barrier : Bool) : Server × Li
 
 /-! ### connecting -/
 
-structure Connect where
-  ver : Nat := 4
-  clean : Bool := true
-  id : Str := []
-  sei : Option Nat := none
-  rm : Option Nat := none
-  tam : Option Nat := none
-  will : Option Will := none
-deriving Repr
-
 def mkConnack (s : Server) (c : Client) (sp : Bool) (code : Nat) (seiOut : Option Nat) : WPk :=
   .connack c.ver sp code s.caps.receiveMaximum s.caps.maximumQos seiOut
 
@@ -810,11 +822,13 @@ def sessionExisted (s : Server) (id : Str) : Bool :=
   | some e => !((getObj s e).clean && (getObj s e).ver < 5)
   | none => false
 
-/-- `attachClient` from the point the client is admitted up to the read loop -/
-def admitClient (s : Server) (i conn : Nat) (k : Connect) : Server × List Out :=
+/-- `attachClient` from the point the client is admitted up to and including `Clients.Add`:
+    counter increment, `inheritClientSession`, registration. Returns session-present and the live
+    object that was taken over (its handler now leaves its read loop). -/
+def admitA (s : Server) (i : Nat) (k : Connect) : Server × List Out × Bool × Option Nat :=
   let s := { s with info := { s.info with connected := s.info.connected + 1 } }
   let exLive : Option Nat := match assocGet s.clients k.id with
-    | some e => if (getObj s e).stopped then none else some e
+    | some e => if (getObj s e).stopped || s.parkedEarly.contains e || s.pending.any (·.obj == e) then none else some e
     | none => none
   -- inheritClientSession
   let (s, o1, present) : Server × List Out × Bool := match assocGet s.clients k.id with
@@ -843,37 +857,45 @@ def admitClient (s : Server) (i conn : Nat) (k : Connect) : Server × List Out :
         let s := clearInflights s e
         (s, o, true)
     | none => (s, [], false)
-  let s := { s with clients := assocSet s.clients k.id i }
-  -- SendConnack
+  ({ s with clients := assocSet s.clients k.id i }, o1, present, exLive)
+
+/-- `SendConnack` -/
+def admitConnack (s : Server) (i conn : Nat) (present : Bool) : Server × List Out :=
   let cl := getObj s i
   let (s, seiOut) := if cl.sei > s.caps.maxSessionExpiry then
       (modObj s i (fun x => { x with sei := s.caps.maxSessionExpiry, fsei := true }), some s.caps.maxSessionExpiry)
     else (s, none)
-  let o2 := [Out.wrote conn (mkConnack s cl present 0 seiOut)]
+  (s, [Out.wrote conn (mkConnack s cl present 0 seiOut)])
+
+/-- the rest of `attachClient` up to the read loop: delayed-will removal and `ResendInflightMessages` -/
+def admitC (s : Server) (i : Nat) (k : Connect) (present : Bool) : Server × List Out :=
+  let s := { s with willDelayed := assocDel s.willDelayed k.id }
+  if present then
+    -- `Inflight.GetAll(false)`: sorted by `uint16(Created)` (whole seconds — all equal within one
+    -- history) with ties in Go's map order: any order, resolved by `resendSeed`
+    (permuteBy s.resendSeed (getObj s i).inflight).foldl (fun (acc : Server × List Out) (m : Msg) =>
+      let m' := if m.type == 3 then { m with dup := true } else m
+      let o := writeMsg acc.1 i m'
+      let s' := if m.type == 4 || m.type == 7 then
+          let (c', ok) := flDelete (getObj acc.1 i) m.id
+          let s'' := setObj acc.1 i c'
+          if ok then { s'' with info := { s''.info with inflight := s''.info.inflight - 1 } } else s''
+        else acc.1
+      (s', acc.2 ++ o)) (s, [])
+  else (s, [])
+
+/-- `attachClient` from the point the client is admitted up to the read loop -/
+def admitClient (s : Server) (i conn : Nat) (k : Connect) : Server × List Out :=
+  let (s, o1, present, exLive) := admitA s i k
+  let (s, o2) := admitConnack s i conn present
   -- the taken-over connection's own handler leaves its read loop (DisconnectClient closed its
   -- connection) and runs the tail of attachClient while this handler is blocked writing the
-  -- CONNACK: the schedule the sequential harness (GOMAXPROCS=1) produces; other interleavings
-  -- are M4's subject
+  -- CONNACK: the schedule the sequential harness (GOMAXPROCS=1) produces
   let (s, o4) := match exLive with
     | some e => detach s e true
     | none => (s, [])
-  let s := { s with willDelayed := assocDel s.willDelayed k.id }
-  -- ResendInflightMessages
-  let (s, o3) := if present then
-      -- `Inflight.GetAll(false)`: sorted by `uint16(Created)` (whole seconds — all equal within one
-      -- history) with ties in Go's map order: any order, resolved by `resendSeed`
-      (permuteBy s.resendSeed (getObj s i).inflight).foldl (fun (acc : Server × List Out) (m : Msg) =>
-        let m' := if m.type == 3 then { m with dup := true } else m
-        let o := writeMsg acc.1 i m'
-        let s' := if m.type == 4 || m.type == 7 then
-            let (c', ok) := flDelete (getObj acc.1 i) m.id
-            let s'' := setObj acc.1 i c'
-            if ok then { s'' with info := { s''.info with inflight := s''.info.inflight - 1 } } else s''
-          else acc.1
-        (s', acc.2 ++ o)) (s, [])
-    else (s, [])
+  let (s, o3) := admitC s i k present
   (s, o1 ++ o2 ++ o4 ++ o3)
-
 
 /-- `attachClient` up to the read loop -/
 def connect (s : Server) (conn : Nat) (k : Connect) : Server × List Out :=
@@ -886,6 +908,54 @@ def connect (s : Server) (conn : Nat) (k : Connect) : Server × List Out :=
     let (s, o2) := stopClient s i
     (s, o ++ o2)
   | none => admitClient s i conn k
+
+/-! #### the same handler, parked at a point of `attachClient` and released later (schedules)
+
+`stage 1`: parked inside the authentication hook — after the `MaximumClients` test and
+`validateConnect`, before the `ClientsConnected` increment.  `stage 2`: parked at the yield point
+`attach.afterClientsAdd` — the session is inherited and registered, the CONNACK not yet written; a
+taken-over handler runs its teardown meanwhile. -/
+
+def connectHold (s : Server) (conn : Nat) (k : Connect) (stage : Nat) : Server × List Out :=
+  let c := parseConnect s conn k
+  let i := s.objs.length
+  let s := { s with objs := s.objs ++ [c], connOf := s.connOf ++ [(conn, i)] }
+  let dec := refuseCode s k c
+  -- a connection refused before the authentication hook never reaches it: it completes at once
+  match dec with
+  | some code =>
+    -- (the hook is only consulted when one is installed: `auth = none` refuses without calling it)
+    if code == 0x86 && stage == 1 && (match s.auth with | .none => false | _ => true) then
+      ({ s with pending := s.pending ++ [{ conn := conn, obj := i, k := k, stage := 1, refuse := some code }] }, [])
+    else
+      let o := [Out.wrote conn (mkConnack s c false code none)]
+      let (s, o2) := stopClient s i
+      (s, o ++ o2)
+  | none =>
+    if stage == 1 then ({ s with pending := s.pending ++ [{ conn := conn, obj := i, k := k, stage := 1 }] }, [])
+    else
+      let (s, o1, present, exLive) := admitA s i k
+      let (s, o4) := match exLive with
+        | some e => detach s e true
+        | none => (s, [])
+      ({ s with pending := s.pending ++ [{ conn := conn, obj := i, k := k, stage := 2, present := present }] }, o1 ++ o4)
+
+def connectRelease (s : Server) (p : Pending) : Server × List Out :=
+  if p.stage == 1 then
+    match p.refuse with
+    | some code =>
+      let o := [Out.wrote p.conn (mkConnack s (getObj s p.obj) false code none)]
+      let (s, o2) := stopClient s p.obj
+      (s, o ++ o2)
+    | none => admitClient s p.obj p.conn p.k
+  else if (getObj s p.obj).stopped then
+    -- taken over while parked: SendConnack fails (connection closed), attachClient returns before the
+    -- read loop; only the deferred counter decrement runs
+    ({ s with info := { s.info with connected := s.info.connected - 1 } }, [])
+  else
+    let (s, o2) := admitConnack s p.obj p.conn p.present
+    let (s, o3) := admitC s p.obj p.k p.present
+    (s, o2 ++ o3)
 
 /-! ### housekeeping and the inline API -/
 
@@ -939,7 +1009,9 @@ inductive Op where
   | recv (conn : Nat) (pk : InPk)
   | drop (conn : Nat)
   | dropHold (conn : Nat)   -- the connection is lost; its handler is parked before the session clean-up
-  | release (conn : Nat)    -- the parked handler runs the clean-up
+  | release (conn : Nat)    -- the parked handler runs on
+  | dropHoldEarly (conn : Nat)  -- the connection is lost; its handler is parked right after the read loop
+  | connectHold (conn : Nat) (k : Connect) (stage : Nat)  -- a connecting handler parked inside attachClient
   | tick (kind : String) (t : Int)
   | inlinePublish (topic payload : Str) (retain : Bool) (qos : Nat)
   | inlineSubscribe (id : Nat) (filter : Str)
@@ -982,11 +1054,31 @@ def step (s : Server) : Op → Server × List Out
       let s := modObj s i (fun c => { c with peerGone := true })
       let (s, o) := detachA s i true
       ({ s with parked := s.parked ++ [i] }, o.filter (fun x => match x with | .closed c => c != conn | _ => true))
-  | .release conn =>
+  | .dropHoldEarly conn =>
     match assocGet s.connOf conn with
     | none => (s, [])
     | some i =>
-      if s.parked.contains i then (detachB { s with parked := s.parked.filter (· != i) } i, []) else (s, [])
+      if (getObj s i).stopped then (s, []) else
+      (modObj { s with parkedEarly := s.parkedEarly ++ [i] } i (fun c => { c with peerGone := true }), [])
+  | .connectHold conn k stage => connectHold s conn k stage
+  | .release conn =>
+    match s.pending.find? (·.conn == conn) with
+    | some p =>
+      let (s, o) := connectRelease { s with pending := s.pending.filter (·.conn != conn) } p
+      -- barrier PINGREQ once established
+      if (getObj s p.obj).isOpen then
+        let (s, o2) := recvOn s conn .pingreq false
+        (s, o ++ o2.filter (fun x => match x with | .wrote _ .pingresp => false | _ => true))
+      else (s, o)
+    | none =>
+    match assocGet s.connOf conn with
+    | none => (s, [])
+    | some i =>
+      if s.parked.contains i then (detachB { s with parked := s.parked.filter (· != i) } i, [])
+      else if s.parkedEarly.contains i then
+        let (s, o) := detach { s with parkedEarly := s.parkedEarly.filter (· != i) } i true
+        (s, o.filter (fun x => match x with | .closed c => c != conn | _ => true))
+      else (s, [])
   | .tick kind t =>
     if kind == "clients" then tickClients s t
     else if kind == "retained" then (tickRetained s t, [])
